@@ -193,6 +193,29 @@ CLAIMED = {
     design_ref="DESIGN.md 4.6",
     note="Edits are restricted to the copied subtree and the symbols "
          "declared inside it."),
+ "C13": dict(
+    engine="E3-accsim",
+    technique="deterministic simulation of a two-party system (host and "
+              "device memories that only the generated data clauses "
+              "connect): seeded transformation histories, device "
+              "allocations injected as undefined (poisoned) memory, host "
+              "arrays compared with a host-only run",
+    text="Seeded routines (arrays of extent n, full/partial/conditional/"
+         "shifted writes, host time loops and IFs around device loops) go "
+         "through seeded histories of the real ACCKernelsTrans / "
+         "ACCParallelTrans+ACCLoopTrans and ACCDataTrans (either order, one "
+         "or two regions, optional ChunkLoopTrans inside afterwards); the "
+         "region then runs on a separate device store whose allocations are "
+         "undefined, with exactly the copyin/copyout/copy movements of the "
+         "written directive lines. Host arrays must equal a host-only run; "
+         "no undefined device value may be read or copied back; an array "
+         "missing under default(present) is a run-time error. Sampling. "
+         "Weakest fit of the claimed set: there is no schedule, the injected "
+         "nondeterminism is the content of device allocations.",
+    design_ref="DESIGN.md 4.12",
+    note="Scalars host-coherent; iterations inside compute constructs run "
+         "serially; ACCUpdateTrans and enter-data are outside the check; the "
+         "write-first => copyout rule is an open known finding (KF-C13-1)."),
 }
 
 NOT_APPLICABLE = {
@@ -266,6 +289,9 @@ def main():
             {"name": "E3-ompsim", "path": "simkit/fgen.py, simkit/interp.py, checks/c09.py, checks/c08.py",
              "serves_properties": ["C09", "C08"],
              "kind_free_text": "program generator + PSyIR interpreter + OpenMP run-time simulator with seeded scheduler"},
+            {"name": "E3-accsim", "path": "simkit/accgen.py, simkit/accsim.py, simkit/interp.py, checks/c13.py",
+             "serves_properties": ["C13"],
+             "kind_free_text": "program + OpenACC history generator, PSyIR interpreter with a separate poisoned device store driven by the written data clauses"},
             {"name": "E4-transhistory", "path": "simkit/richgen.py, simkit/histmachine.py, simkit/gfcheck.py, checks/c26.py, checks/c10.py, checks/c04.py",
              "serves_properties": ["C26", "C10", "C04"],
              "kind_free_text": "transformation-history machine over generated modules; refusals as crash points; gfortran as validity oracle"},
